@@ -10,8 +10,9 @@ vars == <<scn, file, out, cls>>
 
 LayN(ver, dt, mode, bo, widths, rk, N, off, endc, pad, ev, stext, an, nx) ==
   [ver |-> ver, dt |-> dt, mode |-> mode, bo |-> bo, widths |-> widths, rk |-> rk, N |-> N,
-   off |-> off, endc |-> endc, pad |-> pad, ev |-> ev, stext |-> stext, an |-> an, nx |-> nx, order |-> "tda", onum |-> "zero"]
+   off |-> off, endc |-> endc, pad |-> pad, ev |-> ev, stext |-> stext, an |-> an, nx |-> nx, order |-> "tda", onum |-> "zero", knum |-> "zero"]
 DataFirst(l) == [l EXCEPT !.order = "dta"]
+STextFirst(l) == [l EXCEPT !.order = "sta"]
 LayA(ver, dt, mode, bo, widths, rk, N, off, endc, pad, ev, stext, an) ==
   LayN(ver, dt, mode, bo, widths, rk, N, off, endc, pad, ev, stext, an, 0)
 Lay(ver, dt, mode, bo, widths, rk, N, off, endc, pad, ev, stext) ==
@@ -66,6 +67,7 @@ Layouts ==
     [] Slice = "reordered" ->     \* DATA before TEXT: same contents, other segment order
          {DataFirst(l) : l \in {l \in IntLayouts({"2.0", "3.1"}, {"4321", "12"}, {8, 16, 24}, {"pow", "np"}, {0, 2}, {0, 3}, {"asc"}) : WellFormedI(l)}
                                \cup {l \in AnalysisLayouts : ((l.off = "text" \/ l.an = "text") => IsV3(l.ver)) /\ l.nx = 0 /\ l.pad = 3}}
+         \cup {STextFirst(l) : l \in {l \in AnalysisLayouts : IsV3(l.ver) /\ l.stext /\ l.nx = 0 /\ l.widths # <<32>>}}
     [] Slice = "many-par" ->      \* ten and more parameters ($P10B sorts before $P2B as text), mixed widths
          {Lay(v, "I", "L", bo, ws, [p \in 1..Len(ws) |-> rk], 2, off, "last", 0, ev, FALSE) :
             v \in {"2.0", "3.1"}, bo \in {"4321", "1234"}, rk \in {"pow", "np"}, off \in {"header"}, ev \in {"asc", "ones"},
@@ -74,6 +76,9 @@ Layouts ==
     [] Slice = "offset-styles" ->  \* the TEXT offsets blank-padded instead of zero-padded
          {[l EXCEPT !.onum = st] : st \in {"right", "left"},
             l \in {l \in AnalysisLayouts : IsV3(l.ver) /\ l.nx = 0 /\ l.pad = 0 /\ l.widths # <<32>>}}
+    [] Slice = "blank-numbers" ->  \* $PnB / $PnR written with blanks around the digits; widest parameters, ranges 2^(w-1)+1 and 2^w
+         {[l EXCEPT !.knum = "blank"] :
+            l \in {l \in IntLayouts({"3.0"}, {"4321", "1234"}, {16, 56, 64}, {"odd", "pow"}, {2}, {0}, {"ones"}) : WellFormedI(l)}}
     [] Slice = "unsupported" -> Unsupported
     [] Slice = "patterns" -> {l \in PatternLayouts : Len(l.rk) >= Len(l.widths)}
     [] OTHER -> {}
@@ -92,7 +97,8 @@ FaultLayouts ==
              LayA("3.1", "I", "L", "4321", <<8, 8>>, <<"pow", "pow">>, 1, "text", "onepast", 3, "asc", TRUE, "text"),
              DataFirst(Lay("2.0", "I", "L", "4321", <<16, 16>>, <<"pow", "np">>, 2, "header", "last", 0, "asc", FALSE)),
              DataFirst(Lay("3.1", "I", "L", "1234", <<8, 16>>, <<"pow", "pow">>, 1, "text", "onepast", 3, "asc", TRUE)),
-             DataFirst(Lay("3.0", "F", "L", "1234", <<32>>, <<"pow">>, 2, "header", "last", 0, "asc", FALSE)) }
+             DataFirst(Lay("3.0", "F", "L", "1234", <<32>>, <<"pow">>, 2, "header", "last", 0, "asc", FALSE)),
+             STextFirst(Lay("3.1", "I", "L", "1234", <<16, 8>>, <<"pow", "pow">>, 1, "header", "last", 3, "asc", TRUE)) }
       more == { Lay(v, "I", "L", bo, ws, [p \in 1..Len(ws) |-> "pow"], n, off, ec, 0, "asc", st) :
                   v \in {"2.0", "3.1"}, bo \in {"4321", "1234"}, ws \in {<<8>>, <<16, 8>>, <<24>>, <<16, 32>>},
                   n \in {0, 1, 2}, off \in {"header", "text"}, ec \in {"last", "onepast"}, st \in {FALSE} }
@@ -104,6 +110,7 @@ FaultsOf(l) ==
   {[k |-> "trunc", field |-> "-", how |-> "-", at |-> a] : a \in 0..(Len(Write(l, NoFault)) - 1)}
   \cup {[k |-> "empty", field |-> "-", how |-> "-", at |-> 0]}
   \cup {[k |-> "field", field |-> fd, how |-> h, at |-> 0] : fd \in Fields \cup STextFields(l), h \in {"m1", "p1", "half", "big"}}
+  \cup (IF IsV3(l.ver) THEN {[k |-> "field", field |-> "h_tb", how |-> h, at |-> 0] : h \in {"kw1", "kw3", "kw5"}} ELSE {})
 Pending == [k |-> "pending", field |-> "-", how |-> "-", at |-> 0]
 FaultRun == Slice \in {"faults-quick", "faults-full"}
 
@@ -163,11 +170,21 @@ STextShift(s, o) ==
   /\ o.N = s.lay.N /\ o.D = Len(s.lay.widths) /\ o.data = MaskedEvents(s.lay)
   /\ o.text # WrittenText(s.lay, s.flt)
   /\ DictOf(FlatToks(TextPairs(s.lay, s.flt, Offsets(s.lay)))) \subseteq o.text       \* every primary pair is there
+(* DEVIATION, named: a TEXT begin offset that lands exactly on the delimiter before a later keyword yields a well-formed    *)
+(* segment without its first keyword(s).  The reader notices when it needs a missing keyword ($BEGINSTEXT, $BEGINDATA ...);  *)
+(* $BEGINANALYSIS / $ENDANALYSIS are only consulted when the HEADER's ANALYSIS offsets are zero, so a file whose HEADER      *)
+(* locates the ANALYSIS segment loads without them: events intact, every other keyword intact, the skipped ones missing.  *)
+(* Known finding C16/text-begin-on-keyword-boundary-read-silently.                                                        *)
+KeywordSkipped(s, o) ==
+  /\ s.flt.k = "field" /\ s.flt.field = "h_tb" /\ s.flt.how \in {"kw1", "kw3", "kw5"} /\ o.k = "ok"
+  /\ o.N = s.lay.N /\ o.D = Len(s.lay.widths) /\ o.data = MaskedEvents(s.lay)
+  /\ o.text \subseteq WrittenText(s.lay, s.flt) /\ o.text # WrittenText(s.lay, s.flt)
 Classify(s, o) == IF s.flt = NoFault THEN "no-fault" ELSE IF o.k = "refused" THEN "refused"
+                  ELSE IF KeywordSkipped(s, o) THEN "keyword-skipped"
                   ELSE IF AnalysisLoss(s, o) THEN "analysis-loss"
                   ELSE IF STextShift(s, o) THEN "stext-shift"
                   ELSE IF s.flt.k = "field" /\ GeometryField(s.flt.field) THEN "self-consistent-geometry" ELSE "intact"
-LoudFailure == (out.k # "todo" /\ scn.flt # NoFault) => (out.k = "refused" \/ Intact \/ Ambiguous \/ AnalysisLoss(scn, out) \/ STextShift(scn, out))
+LoudFailure == (out.k # "todo" /\ scn.flt # NoFault) => (out.k = "refused" \/ Intact \/ Ambiguous \/ AnalysisLoss(scn, out) \/ STextShift(scn, out) \/ KeywordSkipped(scn, out))
 
 (* ---- the machine ---- *)
 Init == /\ scn \in Scenarios
